@@ -1,13 +1,49 @@
-"""C22 wip"""
+"""C22 — the mempool stays consistent and every entry is valid for the next block (specs/Mempool, engine E1 on a real node)."""
 import os, sys
 sys.path.insert(0, os.path.dirname(os.path.abspath(__file__)))
 import vflib, _mempool
 
-META = dict(engine="E1", level="model_checking", text="wip", note="wip", technique="wip")
+META = dict(
+    engine="E1",
+    level="model_checking",
+    text="Mempool models the pool (set of transactions + PrioritiseTransaction deltas + entry times) over a confirmed chain state (UTXO set, "
+         "heights, block times) on a fixed transaction universe whose fees / virtual sizes / weights are measured from the real signed "
+         "transactions: Submit (AcceptToMemoryPool with replacements, in the code's rule order), Prioritise, MineBlock (removeForBlock: "
+         "confirmed + conflicts, recursively), Disconnect (InvalidateBlock of the tip: the block's transactions return in order through "
+         "AcceptToMemoryPool, removeForReorg drops non-final / BIP68-non-final / immature-coinbase entries with descendants), two-block "
+         "Reorg, mock-time jumps and expiry. TLC proves on the bounded model that in every reachable state every entry's inputs are unspent "
+         "or created by the pool, no output is spent twice, and the whole pool (parents first) is a valid block on the tip by the UtxoChain "
+         "rules (inputs, amounts, maturity, nLockTime/BIP113, BIP68, scripts). Every transition is replayed on a real regtest node with "
+         "check_ratio = 1 (CTxMemPool::check after every call: an assertion is a violation); pool, per-entry fee / modified fee / vsize / "
+         "parents / children, prioritisations, totals, tip height and UTXO set are compared with the prediction, and where the node deviates "
+         "TLC evaluates the consistency and next-block-validity invariants on the observed state.",
+    note="Bounded: universes of 9 (chain) and 17 (rbf) transactions, <= 2 mined blocks, one tip disconnect, one two-block reorg, two time jumps. "
+         "INV mode: a pool that differs from the prediction but is consistent and next-block valid (e.g. a more aggressive eviction) is not a "
+         "C22 violation. TRUC, packages, trimming and persistence are outside this check (C27/C29/C55).",
+    technique="TLA+ spec Mempool + TLC exhaustive; path cover replayed on a real node; invariants evaluated by TLC on observed states",
+)
 
 
 def run(ctx):
     binary = ctx.build_adapter("mempool")
-    st = _mempool.run_scenario(ctx, binary, "C22", "chain", "MC_chain_q.cfg")
-    st2 = _mempool.run_scenario(ctx, binary, "C22", "chain", "MC_chain_exp_q.cfg")
-    return ctx.finish(level="model_checking", exhaustive=True, rule="wip")
+    block_acts = ("mine", "disconnect", "reorg", "tick", "expire")
+    nontrivial = lambda p: any(s["a"][0] in block_acts for s in p["steps"]) and any(s["a"][0] == "submit" and s["r"]["ok"] for s in p["steps"])
+    if ctx.tier == "quick":
+        plan = [("chain", "MC_chain_q.cfg", "MU_std.cfg"), ("chain", "MC_chain_exp_q.cfg", "MU_std.cfg")]
+    else:
+        plan = [("chain", "MC_chain_t.cfg", "MU_std.cfg"), ("chain", "MC_chain_exp_t.cfg", "MU_std.cfg"), ("rbf", "MC_rbf_t.cfg", "MU_std.cfg")]
+    per = {}
+    for uni, cfg, mu in plan:
+        st = _mempool.run_scenario(ctx, binary, "C22", uni, cfg, mu, nontrivial=nontrivial)
+        for k, v in st["per"].items():
+            per[k] = per.get(k, 0) + v
+    _mempool.need(dict(per=per), [("mine", "none"), ("disconnect", "none"), ("reorg", "none"), ("tick", "none"), ("submit", "ok"),
+                                  ("submit", "mempool full"), ("submit", "non-final"), ("submit", "bad-txns-premature-spend-of-coinbase"),
+                                  ("submit", "non-BIP68-final"), ("submit", "script-failed"), ("submit", "insufficient fee"),
+                                  ("submit", "txn-already-known")], "C22")
+    ctx.assumptions += ["bounded scenario on a 101-block regtest base chain; blocks delivered to the node are valid (invalid blocks are C02/C05's subject)",
+                        "fees, virtual sizes and weights of the universe are measured from the real signed transactions at run time",
+                        "the node runs with -acceptnonstdtxn=1 (bare OP_TRUE outputs) and check_ratio = 1"]
+    return ctx.finish(level="model_checking", exhaustive=True,
+                      rule="path cover of every transition of the bounded Mempool graphs; non-trivial = distinct paths with at least one accepted "
+                           "submission and one block connection / disconnection / reorg / time jump")
